@@ -128,7 +128,9 @@ struct Reader {
 
 struct Options {
 	std::string prop, profile, replay, statsPath, replayOut, pendingPath;
+	std::set<std::string> known;   // ids of listed known findings (KNOWN_FINDINGS.txt) whose emulation may be used
 	long extra = 0;
+	bool isKnown(const char* id) const { return known.count(id) != 0; }
 };
 inline Options& opts() { static Options o; return o; }
 
@@ -180,6 +182,8 @@ extern "C" void hfsm2_verif_break(const char* file, int line) noexcept;
 			else if (a == "--replay") o.replay = next(); else if (a == "--stats") o.statsPath = next(); \
 			else if (a == "--replay-out") o.replayOut = next(); else if (a == "--pending") o.pendingPath = next(); \
 			else if (a == "--extra") o.extra = std::atol(next().c_str());                          \
+			else if (a == "--known") { std::string k = next(); size_t p = 0;                      \
+				while (p <= k.size()) { size_t q = k.find(',', p); if (q == std::string::npos) q = k.size(); if (q > p) o.known.insert(k.substr(p, q - p)); p = q + 1; } } \
 		}                                                                                         \
 		hv::Stats st; st.binary = argv[0];                                                        \
 		hv_init(st);                                                                              \
